@@ -192,6 +192,7 @@ where
     FA: Frame + PartialEq + Debug,
     FB: Frame<Sample = <FA::Sample as Sample>::Signed, NumChannels = FA::NumChannels> + PartialEq + Debug,
     FG: Frame<Sample = <FB::Sample as Sample>::Float, NumChannels = FB::NumChannels>,
+    FG::Sample: dasp_sample::FloatSample,
 {
     let a0: Vec<FA> = (0..la).map(mka).collect();
     let a1: Vec<FA> = (0..lb).map(|i| mka(i + 40)).collect();
@@ -261,17 +262,22 @@ where
             return bad("inplace.mismatch", format!("{tag}: add_in_place with different lengths: panicked={} destination modified={}", r.is_err(), a != a0));
         }
     }
-    // add_in_place_with_amp_per_channel
+    // add_in_place_with_amp_per_channel: the given gain, plus all-zero, all-one and single-channel gain frames
     {
-        let mut a = a0.clone();
-        let r = catch(|| dasp_slice::add_in_place_with_amp_per_channel(&mut a, &b, gain));
-        let exp: Vec<FA> = a0.iter().zip(b.iter()).map(|(x, y)| x.add_amp(y.mul_amp(gain))).collect();
-        if eq {
-            if r.is_err() || a != exp {
-                return bad("inplace.add_amp", format!("{tag}: add_in_place_with_amp_per_channel gave {a:?}, expected {exp:?}"));
+        let mut gains: Vec<FG> = vec![gain, FG::EQUILIBRIUM];
+        gains.push(FG::from_fn(|_| <FG::Sample as dasp_sample::FloatSample>::IDENTITY));
+        gains.push(FG::from_fn(|c| if c == 0 { <FG::Sample as dasp_sample::FloatSample>::IDENTITY } else { <FG::Sample as Sample>::EQUILIBRIUM }));
+        for g in gains {
+            let mut a = a0.clone();
+            let r = catch(|| dasp_slice::add_in_place_with_amp_per_channel(&mut a, &b, g));
+            let exp: Vec<FA> = a0.iter().zip(b.iter()).map(|(x, y)| x.add_amp(y.mul_amp(g))).collect();
+            if eq {
+                if r.is_err() || a != exp {
+                    return bad("inplace.add_amp", format!("{tag}: add_in_place_with_amp_per_channel gave {a:?}, expected {exp:?}"));
+                }
+            } else if r.is_ok() || a != a0 {
+                return bad("inplace.mismatch", format!("{tag}: add_in_place_with_amp_per_channel with different lengths: panicked={} destination modified={}", r.is_err(), a != a0));
             }
-        } else if r.is_ok() || a != a0 {
-            return bad("inplace.mismatch", format!("{tag}: add_in_place_with_amp_per_channel with different lengths: panicked={} destination modified={}", r.is_err(), a != a0));
         }
     }
     None
